@@ -698,6 +698,111 @@ class AppLines(Suite):
         return run_app_lines(case)
 
 
+# ------------------------------------------------------------------ (b3) bounded caches at capacity
+
+
+class MediaEcho(object):
+    def on_post(self, req, resp):
+        doc = req.get_media()
+        resp.media = {'who': 'media', 'doc': doc, 'hdr': req.get_header('X-Token'), 'accepts_xml': req.client_accepts_xml,
+                      'prefers': req.client_prefers(['text/plain', 'application/json', 'application/xml'])}
+        resp.content_type = 'application/json; token=' + (req.get_header('X-Token') or '')
+
+
+CACHE_FILES = tuple(os.path.join(boot.REPO, 'falcon', *p) for p in (('util', 'misc.py'), ('util', 'mediatypes.py'), ('media', 'handlers.py'),
+                                                                    ('media', 'json.py'), ('request.py',), ('response.py',)))  # the first four: 'helpers'
+
+
+def build_media_app(warm):
+    """An app whose bounded memo tables (media handler resolution, parsed media types / ranges, status lines) have already
+    seen `warm` DISTINCT keys each: versioned Content-Types, Accept headers and status codes that earlier clients sent."""
+    app = falcon.App()
+    app.add_route('/media', MediaEcho())
+    for n in range(warm):
+        media_request(app, 'w%d' % n)
+    return app
+
+
+def media_request(app, tok):
+    body = json.dumps({'token': tok}).encode()
+    env = wsgi_driver.build_environ('POST', '/media', headers=[('X-Token', tok), ('Content-Length', str(len(body))),
+                                                              ('Content-Type', 'application/json; v=%s' % tok),
+                                                              ('Accept', 'application/json;q=0.9, application/xml;q=0.%d, text/%s' % (1 + len(tok) % 8, tok))],
+                                    body=body)
+    r = wsgi_driver.call(app, env)
+    if r.error is not None:
+        return ('error', type(r.error).__name__, str(r.error)[:200])
+    return (r.status, sorted(r.headers), r.body)
+
+
+_MEDIA_SERIAL = {}
+_MEDIA_POINTS = {}
+
+
+def _media_points(all_files):
+    """Line events one undisturbed request with a new media type executes inside the traced modules (measured once)."""
+    if all_files not in _MEDIA_POINTS:
+        app = build_media_app(2)
+        sched = Scheduler([lambda: media_request(app, 'race-a')], [[0, 10 ** 6]], trace_prefixes=CACHE_FILES if all_files else CACHE_FILES[:4])
+        sched.run()
+        _MEDIA_POINTS[all_files] = sched.points[0]
+    return _MEDIA_POINTS[all_files]
+
+
+def run_warm_caches(case):
+    warm = case['warm']
+    toks = ['race-a', 'race-b', 'race-c'][:case.get('threads', 2)]
+    for tok in toks:
+        if (warm, tok) not in _MEDIA_SERIAL:
+            _MEDIA_SERIAL[(warm, tok)] = ('ok', media_request(build_media_app(warm), tok))
+    app = build_media_app(warm)
+    fns = [lambda tok=tok: media_request(app, tok) for tok in toks]
+    sched = Scheduler(fns, case['plan'], trace_prefixes=CACHE_FILES if case.get('files') == 'all' else CACHE_FILES[:4])
+    results = sched.run()
+    ctx = 'distinct media types seen before=%d plan=%r switches=%r' % (warm, case['plan'], sched.switch_log[:8])
+    for k, tok in enumerate(toks):
+        got, exp = results[k], _MEDIA_SERIAL[(warm, tok)]
+        if got[0] == 'exc':
+            raise Violation('request_failed', 'request %r raised %r; %s' % (tok, got[1], ctx))
+        if got != exp:
+            raise Violation('response_differs', 'request %r got %r, alone it gets %r; %s' % (tok, got[1], exp[1], ctx))
+        _own_values_only(got[1][2], tok, 'request %r' % (tok,), ctx)
+    mid = any(w != 'end' for (_f, _t, _p, w) in sched.switch_log)
+    return Info(mid, ['warm:%s' % ('0' if not warm else '<64' if warm < 64 else '64-127' if warm < 128 else '>=128'), 'threads:%d' % len(toks)]
+                + (['preempted_inside_media_helpers'] if mid else []))
+
+
+class WarmCaches(Suite):
+    """Two or three requests with NEW media types race on an app whose bounded memo tables are at or around capacity (0, 62-66,
+    126-130 and 300 distinct Content-Types / Accept headers seen before): every line event inside the media handler
+    resolution, the media type helpers, status helpers and the request / response modules is a yield point; ALL single
+    pre-emptions of the first request and a grid of double pre-emptions.  Each request must get what it gets alone."""
+
+    name = 'warm_caches'
+    exhaustive = True
+    budget = {'quick': 1, 'thorough': 1}
+    case_timeout = 120
+
+    def cases(self, tier):
+        warms = (0, 31, 32, 63, 64, 65, 128, 300) if tier == 'quick' else (0, 1, 30, 31, 32, 33, 62, 63, 64, 65, 66, 126, 127, 128, 129, 130, 300)
+        n_helpers, n_all = _media_points(False), _media_points(True)
+        for warm in warms:
+            # EVERY line event of the first request inside the helper modules (handlers, mediatypes, misc, json) ...
+            for k in range(0, n_helpers + 2):
+                yield {'warm': warm, 'plan': [[0, k]]}
+            # ... and inside all six modules (request.py / response.py too), on a stride in the quick tier
+            for k in range(0, n_all + 2, 5 if tier == 'quick' else 1):
+                yield {'warm': warm, 'plan': [[0, k]], 'files': 'all'}
+            for k1 in range(0, n_helpers, n_helpers // 5 if tier == 'quick' else 5):
+                for k2 in range(1, n_helpers, n_helpers // 5 if tier == 'quick' else 5):
+                    yield {'warm': warm, 'plan': [[0, k1], [1, k2]]}
+                    yield {'warm': warm, 'plan': [[0, k1], [1, k2], [2, k1 + 3]], 'threads': 3}
+
+    def run(self, case):
+        return run_warm_caches(case)
+
+
+
 # ------------------------------------------------------------------ (c) ASGI tasks on a stepped loop
 
 
@@ -964,5 +1069,5 @@ class AsgiRandom(Suite):
         return run_asgi_tasks(case)
 
 
-SUITES = [RaceSinglePreemption(), RaceDoublePreemption(), RacePublication(), RaceLateEntrant(), RaceCompileError(), FreshProcess(), RaceRandom(), SteadyEnum(), AppLines(), AsgiEnum(), AsgiRandom()]
+SUITES = [RaceSinglePreemption(), RaceDoublePreemption(), RacePublication(), RaceLateEntrant(), RaceCompileError(), FreshProcess(), RaceRandom(), SteadyEnum(), AppLines(), WarmCaches(), AsgiEnum(), AsgiRandom()]
 KNOWN = {}
